@@ -49,15 +49,15 @@ def _cms_linear(pid, tier, seed, kinds, n_quick, n_thorough, exh_quick, exh_thor
     lean = lean_check(pid)
     rng = rng_for(seed, pid + "/cms")
     n = n_quick if tier == QUICK else n_thorough
-    budget = 30 if tier == QUICK else 420
+    budget = core.B(30) if tier == QUICK else 420
     slice_cms.run_slice(res, rng, tier, {pid}, kinds, n, budget, exhaustive_len=exh_quick if tier == QUICK else exh_thorough)
     res.exhaustive = False
 
     def search():
         r2 = Result(pid, tier, seed)
         rng2 = rng_for(seed, pid + "/search")
-        slice_cms.run_slice(r2, rng2, "thorough", {pid}, set(), 4000, 240 if tier == QUICK else 900,
-                            exhaustive_len=3 if tier == QUICK else 4, label="search")
+        slice_cms.run_slice(r2, rng2, "thorough", {pid}, set(), 4000, core.B(240) if tier == QUICK else 900,
+                            exhaustive_len=core.B(3) if tier == QUICK else 4, label="search")
         res.notes.append(f"search ran {r2.evaluations} extra cases on the real code")
         return r2.oracle_failures
 
@@ -106,12 +106,12 @@ def check_C02(tier, seed):
                 "of size ≤ 4. Distinct by case content; non-trivial when two keys share a register or a rank ≥ 20 is reached.")
     lean = lean_check("C02")
     rng = rng_for(seed, "C02")
-    slice_hll.run_slice(res, rng, tier, 250 if tier == QUICK else 4000, 25 if tier == QUICK else 300)
+    slice_hll.run_slice(res, rng, tier, core.B(250) if tier == QUICK else 4000, core.B(25) if tier == QUICK else 300)
     slice_hll.exhaustive_small(res, rng)
 
     def search():
         r2 = Result("C02", tier, seed)
-        slice_hll.run_slice(r2, rng_for(seed, "C02/search"), "thorough", 100000, 200 if tier == QUICK else 600)
+        slice_hll.run_slice(r2, rng_for(seed, "C02/search"), "thorough", 100000, core.B(200) if tier == QUICK else 600)
         res.notes.append(f"search ran {r2.evaluations} extra cases")
         return r2.oracle_failures
 
@@ -141,7 +141,7 @@ def check_C11(tier, seed):
                 "(len%8, blocks≥1, blocks≥2, len%4, last byte, construction, min(len,70)).")
     lean = lean_check("C11")
     rng = rng_for(seed, "C11")
-    slice_hash.run_slice(res, rng, tier, 25 if tier == QUICK else 240)
+    slice_hash.run_slice(res, rng, tier, core.B(25) if tier == QUICK else 240)
     if tier != QUICK:
         # a second interpreter with another PYTHONHASHSEED must agree on a sample
         import subprocess
@@ -190,14 +190,14 @@ def _hh(pid, tier, seed, extra=None, assumptions=None):
     res.rule = HH_RULE + (extra or "")
     lean = lean_check(pid)
     rng = rng_for(seed, pid + "/hh")
-    slice_hh.run_slice(res, rng, tier, [pid], 300 if tier == QUICK else 5000, 28 if tier == QUICK else 400)
+    slice_hh.run_slice(res, rng, tier, [pid], core.B(300) if tier == QUICK else 5000, core.B(28) if tier == QUICK else 400)
     if pid in ("C03", "C04"):
-        slice_hh.exhaustive_width1(res, rng, 4 if tier == QUICK else 6)
+        slice_hh.exhaustive_width1(res, rng, core.B(4) if tier == QUICK else 6)
         res.oracle_failures = [f for f in res.oracle_failures if f.get("pid", pid) == pid]
 
     def search():
         r2 = Result(pid, tier, seed)
-        slice_hh.run_slice(r2, rng_for(seed, pid + "/search"), "thorough", [pid], 100000, 200 if tier == QUICK else 600, label="search")
+        slice_hh.run_slice(r2, rng_for(seed, pid + "/search"), "thorough", [pid], 100000, core.B(200) if tier == QUICK else 600, label="search")
         res.notes.append(f"search ran {r2.evaluations} extra cases")
         return [f for f in r2.oracle_failures if f.get("pid", pid) == pid]
 
@@ -258,16 +258,16 @@ def check_C05(tier, seed):
                 "compared cell by cell incl. consumed draws. Non-trivial: shared cell or ceiling hit (linear), distinct (config, counter, draw side, v) (log).")
     lean = lean_check(pid)
     rng = rng_for(seed, pid)
-    slice_cms.run_slice(res, rng, tier, {pid}, {"exact"}, 200 if tier == QUICK else 4000, 12 if tier == QUICK else 200, exhaustive_len=2 if tier == QUICK else 3)
+    slice_cms.run_slice(res, rng, tier, {pid}, {"exact"}, core.B(200) if tier == QUICK else 4000, core.B(12) if tier == QUICK else 200, exhaustive_len=core.B(2) if tier == QUICK else 3)
     slice_log.log_step(res, rng, tier)
-    slice_log.log_history(res, rng, tier, {pid}, 150 if tier == QUICK else 3000, 12 if tier == QUICK else 200)
+    slice_log.log_history(res, rng, tier, {pid}, core.B(150) if tier == QUICK else 3000, core.B(12) if tier == QUICK else 200)
     _only(res, pid)
 
     def search():
         r2 = Result(pid, tier, seed)
         g = rng_for(seed, pid + "/search")
-        slice_cms.run_slice(r2, g, "thorough", {pid}, set(), 100000, 100 if tier == QUICK else 400, exhaustive_len=3, label="search")
-        slice_log.log_history(r2, g, "thorough", {pid}, 100000, 100 if tier == QUICK else 400)
+        slice_cms.run_slice(r2, g, "thorough", {pid}, set(), 100000, core.B(100) if tier == QUICK else 400, exhaustive_len=3, label="search")
+        slice_log.log_history(r2, g, "thorough", {pid}, 100000, core.B(100) if tier == QUICK else 400)
         _only(r2, pid)
         return r2.oracle_failures
 
@@ -287,7 +287,7 @@ def check_C06(tier, seed):
     lean = lean_check(pid)
     rng = rng_for(seed, pid)
     slice_log.log_step(res, rng, tier)
-    slice_log.log_history(res, rng, tier, {pid}, 200 if tier == QUICK else 3000, 14 if tier == QUICK else 200)
+    slice_log.log_history(res, rng, tier, {pid}, core.B(200) if tier == QUICK else 3000, core.B(14) if tier == QUICK else 200)
     slice_log.rand_refill(res, rng, tier)
     if tier != QUICK:
         _log_unbiased_mc(res, rng)
@@ -297,7 +297,7 @@ def check_C06(tier, seed):
         r2 = Result(pid, tier, seed)
         g = rng_for(seed, pid + "/search")
         slice_log.log_step(r2, g, "thorough")
-        slice_log.log_history(r2, g, "thorough", {pid}, 100000, 120 if tier == QUICK else 400)
+        slice_log.log_history(r2, g, "thorough", {pid}, 100000, core.B(120) if tier == QUICK else 400)
         _log_unbiased_mc(r2, g)
         _only(r2, pid)
         return r2.oracle_failures
@@ -358,9 +358,9 @@ def check_C09(tier, seed):
                 "reserved-range and near-ceiling counters vs a 50-digit oracle. Non-trivial: each (kind, configuration) block and each linear history with a shared cell.")
     lean = lean_check(pid)
     rng = rng_for(seed, pid)
-    slice_cms.run_slice(res, rng, tier, {pid}, {"exact", "contract"}, 150 if tier == QUICK else 3000, 10 if tier == QUICK else 150)
+    slice_cms.run_slice(res, rng, tier, {pid}, {"exact", "contract"}, core.B(150) if tier == QUICK else 3000, core.B(10) if tier == QUICK else 150)
     slice_log.merge_pairs(res, rng, tier, {pid})
-    slice_log.log_history(res, rng, tier, {pid}, 80 if tier == QUICK else 1500, 8 if tier == QUICK else 120)
+    slice_log.log_history(res, rng, tier, {pid}, core.B(80) if tier == QUICK else 1500, core.B(8) if tier == QUICK else 120)
     _only(res, pid)
 
     def search():
@@ -387,8 +387,8 @@ def check_C18(tier, seed):
                 "alone in its cells; find_base: grid of max_count 300..2^63 × num_reserved: the top counter decodes to max_count within 1e-6 or the constructor raises ValueError.")
     lean = lean_check(pid)
     rng = rng_for(seed, pid)
-    slice_cms.run_slice(res, rng, tier, {pid}, {"exact"}, 150 if tier == QUICK else 3000, 9 if tier == QUICK else 150)
-    slice_log.log_history(res, rng, tier, {pid}, 100 if tier == QUICK else 1500, 8 if tier == QUICK else 120)
+    slice_cms.run_slice(res, rng, tier, {pid}, {"exact"}, core.B(150) if tier == QUICK else 3000, core.B(9) if tier == QUICK else 150)
+    slice_log.log_history(res, rng, tier, {pid}, core.B(100) if tier == QUICK else 1500, core.B(8) if tier == QUICK else 120)
     slice_log.merge_pairs(res, rng, tier, {pid}, light=(tier == QUICK))
     _hh_ceiling(res, rng, tier)
     _find_base_grid(res, rng, tier)
@@ -415,7 +415,7 @@ def _hh_ceiling(res, rng, tier):
     s = sk()
     t0 = time.time()
     n = 0
-    for _ in range(20 if tier == QUICK else 200):
+    for _ in range(core.B(20) if tier == QUICK else 200):
         w, d = rng.choice([1, 2, 5]), rng.choice([1, 2, 4])
         key = bytes(rng.randrange(256) for _ in range(rng.randrange(0, 6)))
         parts = [s.HeavyHitters(w, d, 8) for _ in range(rng.choice([1, 2, 3]))]
@@ -566,10 +566,10 @@ def check_C12(tier, seed):
     lean = lean_check(pid)
     rng = rng_for(seed, pid)
     slice_misc.entry_real(res, rng, tier)
-    slice_cms.run_slice(res, rng, tier, {pid}, {"exact", "entry"}, 80 if tier == QUICK else 1500, 5 if tier == QUICK else 90)
-    slice_hh.run_slice(res, rng, tier, [pid], 60 if tier == QUICK else 1000, 5 if tier == QUICK else 90)
-    slice_hll.run_slice(res, rng, tier, 60 if tier == QUICK else 1000, 5 if tier == QUICK else 90)
-    slice_log.log_history(res, rng, tier, {pid}, 60 if tier == QUICK else 1000, 4 if tier == QUICK else 60)
+    slice_cms.run_slice(res, rng, tier, {pid}, {"exact", "entry"}, core.B(80) if tier == QUICK else 1500, core.B(5) if tier == QUICK else 90)
+    slice_hh.run_slice(res, rng, tier, [pid], core.B(60) if tier == QUICK else 1000, core.B(5) if tier == QUICK else 90)
+    slice_hll.run_slice(res, rng, tier, core.B(60) if tier == QUICK else 1000, core.B(5) if tier == QUICK else 90)
+    slice_log.log_history(res, rng, tier, {pid}, core.B(60) if tier == QUICK else 1000, core.B(4) if tier == QUICK else 60)
     _only(res, pid)
 
     def search():
@@ -607,7 +607,7 @@ def check_C07(tier, seed):
     lean = lean_check(pid)
     rng = rng_for(seed, pid)
     slice_misc.hll_query(res, rng, tier)
-    slice_hll.run_slice(res, rng, tier, 60 if tier == QUICK else 600, 5 if tier == QUICK else 60)
+    slice_hll.run_slice(res, rng, tier, core.B(60) if tier == QUICK else 600, core.B(5) if tier == QUICK else 60)
     _hll_envelope(res, rng, tier)
     _only(res, pid)
 
@@ -637,7 +637,7 @@ def _hll_envelope(res, rng, tier):
         thr = int(sub_algorithm_threshold[p - 7])
         grid = sorted(set([1, 2, m // 10 or 1, m // 2, m, thr, int(2.5 * m), 5 * m] + ([10 * m, 40 * m] if (tier != QUICK and p <= 13) else [])))
         for n in grid:
-            for rep in range(1 if tier == QUICK else 3):
+            for rep in range(core.B(1) if tier == QUICK else 3):
                 seed = rng.choice([0, rng.randrange(2**64)])
                 h = s.HyperLogLog(p, seed)
                 base = rng.randrange(2**40)
